@@ -58,6 +58,10 @@ pub enum AllocPath {
     DatumFixed,
     DatumArrayNull,
     DatumMapNull,
+    /// the same `n` items written as two blocks (each one alone is well within the limit)
+    DatumArrayNullSplit,
+    DatumMapNullSplit,
+    DeserArrayNullSplit,
     /// the deprecated free function `from_avro_datum`
     FromAvroDatumBytes,
     DeserBytes,
@@ -140,7 +144,9 @@ pub enum Op {
     UseAlloc { path: AllocPath, n: u64, with_data: bool, explicit_hr: bool },
     UseHr { path: HrPath },
     /// parse a schema carrying the name that only the validator with `tag` accepts
-    UseValidator { which: Setting, tag: u32 },
+    /// `direct`: through `Name::new` / `Name::new_with_enclosing_namespace` instead of parsing a
+    /// schema text (names and namespaces only) - the validator is consulted first thing
+    UseValidator { which: Setting, tag: u32, #[serde(default)] direct: bool },
     UseCmp { tag: u32 },
 }
 
@@ -174,7 +180,10 @@ impl Op {
         let mut v = vec![self.primary()];
         if let Op::UseAlloc { path, n: 0, .. } = self {
             // an empty array / map ends at its first count: no guard is consulted, the limit is not read
-            if matches!(path, AllocPath::DatumArrayNull | AllocPath::DatumMapNull | AllocPath::DeserArrayNull | AllocPath::DeserMapNull) {
+            if matches!(
+                path,
+                AllocPath::DatumArrayNull | AllocPath::DatumMapNull | AllocPath::DeserArrayNull | AllocPath::DeserMapNull | AllocPath::DatumArrayNullSplit | AllocPath::DatumMapNullSplit | AllocPath::DeserArrayNullSplit
+            ) {
                 v.clear();
             }
         }
@@ -245,8 +254,8 @@ pub const MAP_KEY_LEN: u64 = 8;
 /// What the limit is compared with on each path.
 pub fn cost(path: &AllocPath, n: u64, sizes: &Sizes) -> Option<u64> {
     match path {
-        AllocPath::DatumArrayNull => n.checked_mul(sizes.value),
-        AllocPath::DatumMapNull => n.checked_mul(sizes.entry),
+        AllocPath::DatumArrayNull | AllocPath::DatumArrayNullSplit => n.checked_mul(sizes.value),
+        AllocPath::DatumMapNull | AllocPath::DatumMapNullSplit => n.checked_mul(sizes.entry),
         // every entry also carries an 8-byte key string, itself subject to the limit
         AllocPath::DeserMapNull if n > 0 => Some(n.max(MAP_KEY_LEN)),
         _ => Some(n),
